@@ -15,7 +15,7 @@ CORE_TEXTS = ["4x + 2", "4x+2", "4x +", ") 4", "", "x = 2y^2"]
 # texts that collide under whitespace removal, and a failing text that leaves 64 groups open
 EXTRA_TEXTS = ["12x", "1 2x", "(" * 64 + "x", "(x + 1)(x - 1)"]
 TEXTS = CORE_TEXTS + EXTRA_TEXTS
-MUTATORS = [("clear",), ("consume",), ("reverse",), ("extend",)]
+MUTATORS = [("clear",), ("consume",), ("reverse",), ("extend",), ("new",)]  # 'new': continue on a brand-new parser object
 OPS_CORE = [("parse", t) for t in CORE_TEXTS] + [("tokenize", t) for t in CORE_TEXTS] + MUTATORS
 OPS = [("parse", t) for t in TEXTS] + [("tokenize", t) for t in TEXTS] + MUTATORS
 
@@ -80,6 +80,8 @@ def run_history(ops):
                 last = lst
         elif kind == "clear":
             p.clear_cache()
+        elif kind == "new":
+            p = ExpressionParser()  # whatever happened to earlier parser objects must not matter to this one
         elif last is not None:
             if kind == "consume":
                 while last:
@@ -125,7 +127,7 @@ def _work(task):
         acc.count("histories")
         acc.count("steps", len(ops))
         texts = [o[1] for o in ops if len(o) > 1]
-        if len(set(texts)) < len(texts) or any(o[0] in ("consume", "reverse", "extend", "clear") for o in ops):
+        if len(set(texts)) < len(texts) or any(o[0] in ("consume", "reverse", "extend", "clear", "new") for o in ops):
             acc.count("nontrivial")
         bad = run_history(ops)
         if bad is not None:
